@@ -27,6 +27,8 @@
 #include "clang/Tooling/CompilationDatabase.h"
 #include "clang/Tooling/Tooling.h"
 #include "llvm/Support/JSON.h"
+#include "llvm/Support/MemoryBuffer.h"
+#include <cstdlib>
 #include "llvm/Support/raw_ostream.h"
 
 #include <map>
@@ -282,6 +284,9 @@ struct Extractor {
       return std::move(O);
     }
     if (const auto *BO = dyn_cast<BinaryOperator>(S)) {
+      if (BO->getOperatorLoc().isMacroID())
+        O["om"] = Lexer::getImmediateMacroName(BO->getOperatorLoc(), SM,
+                                               Ctx.getLangOpts()).str();
       O["k"] = BO->isAssignmentOp() ? "asg" : "bin";
       O["op"] = BO->getOpcodeStr().str();
       O["l"] = ser(BO->getLHS(), Root);
@@ -809,6 +814,30 @@ int main(int argc, const char **argv) {
     return 2;
   }
   tooling::ClangTool Tool(*DB, {Src});
+  // selftest only: analyse scratch copies in place of original files
+  // (XZFACTS_REMAP="orig=replacement,orig2=replacement2")
+  static std::vector<std::string> Keep;
+  if (const char *Remap = getenv("XZFACTS_REMAP")) {
+    std::string RS(Remap);
+    size_t Pos = 0;
+    while (Pos < RS.size()) {
+      size_t End = RS.find(',', Pos);
+      if (End == std::string::npos)
+        End = RS.size();
+      std::string Pair = RS.substr(Pos, End - Pos);
+      size_t Eq = Pair.find('=');
+      if (Eq != std::string::npos) {
+        std::string Orig = Pair.substr(0, Eq), Repl = Pair.substr(Eq + 1);
+        auto Buf = llvm::MemoryBuffer::getFile(Repl);
+        if (Buf) {
+          Keep.push_back((*Buf)->getBuffer().str());
+          Keep.push_back(Orig);
+          Tool.mapVirtualFile(Keep[Keep.size() - 1], Keep[Keep.size() - 2]);
+        }
+      }
+      Pos = End + 1;
+    }
+  }
   int R = Tool.run(tooling::newFrontendActionFactory<Action>().get());
   return R == 0 ? 0 : 2;
 }
